@@ -1,7 +1,7 @@
 """Per-property job tables for ./check."""
 
 SETUP_FLAVOURS = ["debug", "release", "asan", "valgrind"]
-HOOK_COMMITS = ["7097985", "11c3a47", "f0bf0f9", "022e47b", "ab4a121"]
+HOOK_COMMITS = ["7097985", "11c3a47", "f0bf0f9", "022e47b", "ab4a121", "6b1e3cb", "5c464db"]
 SETUP_EXTRAS = ["roto-bin", "cli-host"]
 NOT_YET = {}
 
@@ -273,6 +273,30 @@ PROPS = {
         "assumptions": ["the shared-vector model (harness/rvmon/src/fam/listcore.rs) is the documented meaning of List"],
         "min_tags": 60,
         "budget": {"quick": 600, "thorough": 2400},
+    },
+    "C16": {
+        "claim": "Controlled-scheduler monitor over the real List code: short multi-threaded programs (Rust API and compiled "
+                 "script functions) on two shared lists run under a scheduler that owns every lock-acquisition point (verif-hooks "
+                 "list hook) and explores the interleavings depth-first; every explored schedule is checked for deadlock "
+                 "(nobody runs, somebody unfinished, nothing enabled), for reads through storage another thread released, and "
+                 "its invocation/response history for linearizability against the shared-vector model.",
+        "design_ref": "DESIGN.md §4 C16",
+        "level_note": "Exhaustive over schedules (at lock-acquisition granularity) of every enumerated configuration below the "
+                      "schedule cap; capped configurations get the first schedules in DFS order plus seeded random ones; larger "
+                      "random configurations are sampled. Real OS threads, real mutexes; the scheduler only decides who runs.",
+        "technique": "controlled-scheduler runtime monitoring: stateless schedule exploration + linearizability checker + "
+                     "released-buffer monitor + deadlock monitor",
+        "rule": "case = one configuration (element type, thread programs, initial aliasing); evaluations = schedules executed; "
+                "events = hook events observed; distinct = distinct configuration; non-trivial = at least two schedules with "
+                "different interleavings were executed and checked",
+        "jobs": [
+            {"family": "list-sched", "flavour": "release", "cases": {"quick": 4096, "thorough": 16096}, "case_timeout": 120},
+        ],
+        "assumptions": ["the shared-vector model (Vec per list object) is the documented meaning of List",
+                        "yield points are the lock acquisitions and element callbacks: code between two of them is "
+                        "thread-local (holds for the current list.rs; a lock-free shared access would be invisible)"],
+        "min_tags": 20,
+        "budget": {"quick": 300, "thorough": 1500},
     },
     "C04": {
         "claim": "Exhaustive cross-product monitor over a finite catalogue: for every pair (script type term, requested Rust type "
